@@ -84,7 +84,10 @@ def points_for(rng, comp, npts):
                 # values that are special for array code rather than for the mathematics: exactly 0.0 (padding value),
                 # a node value of ANOTHER dimension, a domain end point, 1.0
                 other = [g for dd in range(len(names)) if dd != d for g in grids[dd]]
-                u = rng.choice([0.0, 0.0, lb, ub, 1.0] + other)
+                # (only within half a width of the domain: far outside, the barycentric form is numerically meaningless)
+                pool = [v for v in [0.0, 0.0, lb, ub, 1.0] + other if lb - 0.5 * w <= v <= ub + 0.5 * w]
+                if pool:
+                    u = rng.choice(pool)
             x.append(float(u))
         pts.append(x)
         kinds.append(mode)
